@@ -544,6 +544,7 @@ func (vc *VC) nameLoaded(st *State, t *Term) *Term {
 	r := &Term{n, t.Sort, t.T}
 	vc.assume(vc.typingFact(r))
 	vc.assumeAllocated(st, r)
+	vc.assumeTypeInv(st, r)
 	return r
 }
 
@@ -560,6 +561,7 @@ func (vc *VC) assumeAllocated(st *State, r *Term) {
 }
 
 func (vc *VC) store(st *State, p Val, v *Term, pos token.Pos) {
+	vc.obligeTypeInv(st, v, "typeinv.store", "value stored to memory satisfies its type invariant", pos)
 	switch p := p.(type) {
 	case *Loc:
 		vc.storeLoc(st, p, v.S)
